@@ -165,8 +165,15 @@ def _run_abort(case):
     if ('execute-returned',) in env['log']:
       return
     test.abort_from_sig_int()
-  out = sched_exec.run_case(prog, choose=c04._chooser(case), aux=[('ab1', aborter)], max_steps=40000)
+  sigint = case.get('mode') == 'sigint'
+  out = sched_exec.run_case(prog, choose=c04._chooser(dict(case, ks=[k]) if sigint else case),
+                            aux=[] if sigint else [('ab1', aborter)], max_steps=40000)
   toks = []
+  if sigint and isinstance(out['exc'], KeyboardInterrupt) and not out['recs'] and not (out['deadlock'] or out['stuck']):
+    # the SIGINT landed outside execute()'s wait (start-up block / output stage): KeyboardInterrupt escapes without
+    # finalisation or callbacks - the known findings of C04, seen through C09's contract
+    test_descriptor.Test.TEST_INSTANCES.clear()
+    return {'abort': ['R:sigint-outside-the-wait']}
   if out['deadlock'] or out['stuck']:
     return {'abort': ['R:deadlock']}
   rec = out['record']
@@ -179,12 +186,16 @@ def _run_abort(case):
   toks.append('NCB:%d:%d' % (len(cbr), len(prog['callbacks'])))
   toks.append('CBSAME:%d' % (1 if all(r is rec for r in cbr) else 0))
   toks.append('NREC:%d' % len(out['recs']))
-  toks.append('X:ret:%d' % (1 if out['ret'] else 0))
+  if sigint and isinstance(out['exc'], KeyboardInterrupt):
+    # execute() re-raised KeyboardInterrupt: there is no return value to judge
+    toks.append('X:ret:%d' % (1 if rec.outcome is not None and rec.outcome.name == 'PASS' else 0))
+  else:
+    toks.append('X:ret:%d' % (1 if out['ret'] else 0))
   toks.append('H:%d' % (len(logging.getLogger('openhtf').handlers) - h0))
   toks.append('S:%d' % (1 if out['test'].state is None else 0))
   toks.append('TI:%d' % (1 if len(test_descriptor.Test.TEST_INSTANCES) else 0))
-  if out['exc'] is not None:
-    toks.append('R:raised:' + type(out['exc']).__name__)
+  if out['exc'] is not None and not (sigint and isinstance(out['exc'], KeyboardInterrupt)):
+    toks.append('R:raised:' + type(out['exc']).__name__)    # (execute() re-raising KeyboardInterrupt is the contract)
   test_descriptor.Test.TEST_INSTANCES.clear()
   return {'abort': toks}
 
@@ -211,7 +222,7 @@ def classify(case, obs):
   if case.get('kind') == 'race':
     return 'race/%dthreads/%s' % (case['threads'], ','.join(obs['results']))
   if case.get('kind') == 'abort':
-    return 'abort/%s/%s' % (case['prog'], obs['abort'][0])
+    return 'abort%s/%s/%s' % ('-sigint' if case.get('mode') == 'sigint' else '', case['prog'], obs['abort'][0])
   return '%druns/%dcb/%s' % (len(case['runs']), len(case.get('callbacks') or []),
                               obs['runs'][0][0] if obs['runs'] else '?')
 
@@ -268,6 +279,8 @@ def gen_cases(rng, tier):
     n = c04._length(name, 'thread')
     for k in range(0, n + 2, 6 if tier == 'quick' else 1):
       cases.append({'kind': 'abort', 'prog': name, 'k': k, 'callbacks': [False, k % 3 == 0]})
+      if k % 2 == 0:
+        cases.append({'kind': 'abort', 'prog': name, 'k': k, 'callbacks': [False, k % 3 == 0], 'mode': 'sigint'})
   for i in range(60 if tier == 'quick' else 1500):
     r = rng.derive('race%d' % i)
     cases.append({'kind': 'race', 'threads': r.choice([2, 2, 3]), 'reps': r.choice([1, 1, 2]), 'phases': r.choice([1, 2]),
